@@ -39,3 +39,22 @@ def f14_findings(f, data, H14, iz, dist, ndirs):
                 direction=d, got=got, textbook=float(np.sqrt(want2)), levels=int(occ.sum()))))
             break
     return out
+
+
+def mean_findings(H, Hm, Hp):
+    """`return_mean` / `return_mean_ptp` of the real code against the Lean model of `mean(axis=0)` / `ptp(axis=0)`
+    (driver kind `harmean`) applied to the real feature matrix: bit for bit (rows are added in order, one division)."""
+    H = np.asarray(H, dtype=np.float64)
+    if H.ndim != 2 or not np.all(np.isfinite(H)):
+        return []
+    drv = core.drive([f"c19 kind=harmean w={H.shape[1]} feats={core.fmt_floats(H)}"])[0]
+    if 'error' in drv:
+        raise core.Infra(f"driver: {drv['error']}")
+    mean, ptp = core.floats(drv['mean']), core.floats(drv['ptp'])
+    out = []
+    same = lambda a, b: a.shape == b.shape and bool(np.all(a == b))
+    if not same(np.asarray(Hm, dtype=np.float64), mean):
+        out.append(dict(kind='model', key='haralick:return_mean-model', detail=dict(got=np.asarray(Hm).tolist(), model=mean.tolist())))
+    if not same(np.asarray(Hp, dtype=np.float64), np.concatenate((mean, ptp))):
+        out.append(dict(kind='model', key='haralick:return_mean_ptp-model', detail=dict(got=np.asarray(Hp).tolist(), model=np.concatenate((mean, ptp)).tolist())))
+    return out
